@@ -47,6 +47,9 @@ func renderBody(segs []pxSeg) []byte {
 			}
 		case "near":
 			b.WriteString(s.M[:len(s.M)-1])
+		case "ctl":
+			// the marker with '<' replaced by 0x1C and '/' by 0x0F (they differ from them only in bit 0x20): not a marker
+			b.WriteString(strings.NewReplacer("<", "\x1c", "/", "\x0f").Replace(s.M))
 		case "marker":
 			m := s.M
 			switch s.Cs {
